@@ -46,8 +46,10 @@ PROPS = {
     "C04": {
         "lean": ["GV.Props.C04"],
         "scenarios": [{"scn": "orch", "filter": SORT_METHODS, "n": {"quick": 250, "thorough": 3000},
-                       "aspects": ["outcome", "trace", "driver", "build"]}],
-        "rule": "random rule sets (1-7 rules, saliences with ties / negatives / full int64 range, behaviours ret/bare/silent/fail/failing-return), sort-model methods, both error policies; non-trivial = at least two rules started; distinct by canonical case text",
+                       "aspects": ["outcome", "trace", "driver", "build"]},
+                      {"scn": "kc", "n": {"quick": 200, "thorough": 2000},
+                       "aspects": ["exec", "sorted", "crash", "driver"]}],
+        "rule": "histories of full / incremental builds and removals after each of which the sort model is executed (order of the installed list is what the sort model runs); random rule sets (1-7 rules, saliences with ties / negatives / full int64 range, behaviours ret/bare/silent/fail/failing-return), sort-model methods, both error policies; non-trivial = at least two rules started; distinct by canonical case text",
         "trusted_base": TB_COMMON,
         "assumptions": ["sort.SliceStable is a stable sort", "rule outcome independent of schedule"],
     },
